@@ -20,7 +20,7 @@
      [code] the documentation is silent or self-contradictory and the if-chain was read to settle
           the question; every such place is listed in Mgr/C12_NOTES.md. *)
 From Coq Require Import NArith List Bool String.
-From IMB Require Import Lib.Bytes Gen.GenEnums Mgr.JobView.
+From IMB Require Import Lib.Bytes Gen.GenEnums Mgr.JobView Gen.GenValidate.
 Import ListNotations.
 Local Open Scope N_scope.
 Local Open Scope bool_scope.
@@ -551,3 +551,48 @@ Definition outside_known_discrepancies (j : job_view) : bool :=
 Definition discrepancy_flags (j : job_view) : list N :=
   (if disc_D2_key_len_truncated j then [2] else []) ++
   (if disc_D3_sgl_total_wraps j then [3] else []) ++ (if disc_D8_docsis_offset_wraps j then [8] else []).
+
+(* ======================================================================================= *)
+(*                 CHECKED ASYNCHRONOUS BURST SUBMISSION (IMB_SUBMIT_BURST)                *)
+(* ======================================================================================= *)
+(* [H] IMB_SUBMIT_BURST: "Prior to submission, _jobs need to be initialized with correct crypto job
+   parameters and followed with a call to imb_set_session()"; "Number of completed jobs or zero on
+   error. If zero, imb_get_errno() can be used ... and _jobs[0] contains pointer to invalid job";
+   IMB_MAX_BURST_SIZE; [E] NULL_BURST / BURST_SIZE / NULL_JOB / QUEUE_SPACE / BURST_OOO / BURST_SUITE_ID
+   ("Invalid cipher suite ID (async burst API)").
+   The suite id written by imb_set_session() is the pair of dispatch-table indices of the job's
+   session fields ([C] mb_mgr_job_api.h: "cipher_mode x 4, four key sizes per cipher mode; map
+   key_len_in_bytes into 0, 1, 2 & 3 index values; encrypt_direction_bit x (ENCRYPT_DECRYPT_GAP x 4)"
+   with ENCRYPT_DECRYPT_GAP = 32; the hash index is the hash algorithm itself).  A descriptor whose
+   stored suite id differs from those indices IN EITHER WORD (stale session: the slot was re-used
+   for another cipher / key size / direction / hash without calling imb_set_session() again) must
+   not be dispatched. *)
+Definition key_size_index (j : job_view) : N :=
+  (((jv_key_len_in_bytes j + 18446744073709551616 - 1) mod 18446744073709551616) / 8) mod 4.
+Definition suite_cipher_index (j : job_view) : N :=
+  (4 * jv_cipher_mode j + key_size_index j + 128 * (jv_cipher_direction j mod 2)) mod 4294967296.
+Definition suite_hash_index (j : job_view) : N := jv_hash_alg j.
+
+Definition job_check_passes (j : job_view) : bool :=
+  match is_job_invalid j with None => true | Some _ => false end.
+
+Definition burst_entry_ok (e : burst_entry) : bool :=
+  negb (be_null e) && be_in_order e && job_check_passes (be_job e) &&
+  (be_suite0 e =? suite_cipher_index (be_job e)) && (be_suite1 e =? suite_hash_index (be_job e)).
+
+Definition burst_ok (b : burst_view) : bool :=
+  negb (bv_jobs_null b) && (bv_n_jobs b <=? IMB_MAX_BURST_SIZE) && (bv_n_jobs b <=? bv_queue_space b) &&
+  forallb burst_entry_ok (bv_entries b).
+
+(* error codes of everything that is wrong with a burst (order-free) *)
+Definition burst_entry_violations (e : burst_entry) : list N :=
+  (if be_null e then [IMB_ERR_NULL_JOB] else []) ++
+  (if be_in_order e then [] else [IMB_ERR_BURST_OOO]) ++
+  (match is_job_invalid (be_job e) with Some err => [err] | None => [] end) ++
+  (if (be_suite0 e =? suite_cipher_index (be_job e)) && (be_suite1 e =? suite_hash_index (be_job e))
+   then [] else [IMB_ERR_BURST_SUITE_ID]).
+Definition burst_violations (b : burst_view) : list N :=
+  (if bv_jobs_null b then [IMB_ERR_NULL_BURST] else []) ++
+  (if bv_n_jobs b <=? IMB_MAX_BURST_SIZE then [] else [IMB_ERR_BURST_SIZE]) ++
+  (if bv_n_jobs b <=? bv_queue_space b then [] else [IMB_ERR_QUEUE_SPACE]) ++
+  flat_map burst_entry_violations (bv_entries b).
